@@ -30,7 +30,7 @@ func init() {
 	register(&c08{base{
 		id:          "C08",
 		level:       lvlExploration,
-		rule:        "times/div: every one of the 2^32 operand pairs (case = block of 1024 constants x all 65536 values) compared with a shift-and-xor reference; inverse: all 65535 elements; pow: all 65536 bases x a fixed exponent list (quick) plus the full chain a^(p+1)=a^p*a for p<=65536 (thorough); Poly64: all single-bit pairs, boundary degrees and seeded random pairs; each operation also as the first field operation of a fresh process that imports only gf2p16. A key is one (operation, operand block); blocks are disjoint, so distinct_nontrivial counts distinct blocks and monitor_counters.pairs_* count the operand pairs actually compared Times, Div, Pow and Inverse blocks are repeated in a GOARCH=386 build of the worker (32-bit int).",
+		rule:        "times/div: every one of the 2^32 operand pairs (case = block of 1024 constants x all 65536 values) compared with a shift-and-xor reference; inverse: all 65535 elements; pow: all 65536 bases x a fixed exponent list (quick) plus the full chain a^(p+1)=a^p*a for p<=65536 (thorough); Poly64: all single-bit pairs, boundary degrees and seeded random pairs; each operation also as the first field operation of a fresh process that imports only gf2p16. A key is one (operation, operand block); blocks are disjoint, so distinct_nontrivial counts distinct blocks and monitor_counters.pairs_* count the operand pairs actually compared Times, Div, Pow and Inverse blocks are repeated in a GOARCH=386 build of the worker (32-bit int). Polynomial products and divisions also in the 386 build.",
 		assumptions: append([]string{"reference field arithmetic: internal/ref/gf16 (carry-less shift-and-xor product reduced by 0x1100B, extended Euclid inverse, square-and-multiply power)"}, commonAssumptions...),
 		opts:        core.WorkerOpts{CrashIsViolation: true, WallSeconds: 3000, CPUSeconds: 150, CPULimitIsViolation: true, Exhaustive: true, Extra: map[string]interface{}{"exhaustive_subspace": "all 2^32 pairs for Times and Div, all 65535 inverses"}},
 	}})
